@@ -209,7 +209,7 @@ def handleFHsl2Rgb (h s l : Rat) (impl : List String) : Verdict :=
     if !isPanic p then bad "fhsl2rgb output" else
     let v := v.addTag "impl-panic"
     let v := match model with
-      | .panic e => v.withDiff (panicClass p != e) s!"panic class: impl {panicClass p} model {e}"
+      | .panic _ => v   -- both panic; the wording / site of the panic is not compared
       | .ok _ => v.withDiff clear s!"implementation panics ({p}), model does not"
     v.withSpec inRange "to-rgb-f32-panic" s!"in-range HSL ({ratApprox h}, {ratApprox s}, {ratApprox l}) panics: {p}"
   | [ir, ig, ib] =>
@@ -325,8 +325,8 @@ def handle (case impl : List String) : Verdict :=
                    if hsl.2.2 ≤ 128 then "l<=128" else "l>128"]
       let want := match toRgb8 hsl.1 hsl.2.1 hsl.2.2 with
         | .ok rgb => fmt3 hsl ++ fmt3 rgb
-        | .panic e => fmt3 hsl ++ ["panic:" ++ e]
-      let implN := impl.map fun t => if isPanic t then "panic:" ++ panicClass t else t
+        | .panic _ => fmt3 hsl ++ ["panic:any"]
+      let implN := impl.map fun t => if isPanic t then "panic:any" else t
       let v := (Verdict.ok tags).withDiff (implN != want) s!"model {want}"
       if impl.any isPanic then v.withSpec true "rgb8-panic" s!"8-bit round trip panics: {impl}"
       else match ints? impl with
@@ -344,8 +344,8 @@ def handle (case impl : List String) : Verdict :=
       let tags := [s!"sextant8-{k}", if l ≤ 128 then "l<=128" else "l>128"]
       let want := match toRgb8 h s l with
         | .ok rgb => fmt3 rgb
-        | .panic e => ["panic:" ++ e]
-      let implN := impl.map fun t => if isPanic t then "panic:" ++ panicClass t else t
+        | .panic _ => ["panic:any"]
+      let implN := impl.map fun t => if isPanic t then "panic:any" else t
       let v := (Verdict.ok tags).withDiff (implN != want) s!"model {want}"
       let v := v.withSpec (impl.any isPanic) "hsl8-panic" s!"8-bit HSL ({h},{s},{l}) panics: {impl}"
       match ints? impl with
@@ -383,9 +383,9 @@ def handle (case impl : List String) : Verdict :=
       let hs := toHsla8 r g b a
       let back := match hslaToRgba8 hs.1 hs.2.1 hs.2.2.1 hs.2.2.2 with
         | .ok c => fmt4 c
-        | .panic e => ["panic:" ++ e]
+        | .panic _ => ["panic:any"]
       let want := fmt3 (rgbaToRgb r g b a) ++ fmt4 (rgbToRgba r g b) ++ fmt4 hs ++ fmt3 (rgbaToRgb r g b a) ++ back
-      let implN := impl.map fun t => if isPanic t then "panic:" ++ panicClass t else t
+      let implN := impl.map fun t => if isPanic t then "panic:any" else t
       let v := (Verdict.ok ["rgba8"]).withDiff (implN != want) s!"model {want}"
       let i (k : Nat) : Int := (impl.getD k "").toInt?.getD (-1)
       let v := v.withSpec (!(i 0 == r && i 1 == g && i 2 == b)) "rgba-to-rgb" "Color4::to_rgb changed a channel"
@@ -479,7 +479,7 @@ def handle (case impl : List String) : Verdict :=
       let sums := (cs.zip ds).map fun (c, d) => c + d
       let tag := if sums.any (· > i32Max) then "add-i32-overflow" else if sums.any (fun s => s < 0 || s > 255) then "add-saturates" else "add-plain"
       let want := (addColor cs ds).map toString
-      let implN := impl.map fun t => if isPanic t then "panic:" ++ panicClass t else t
+      let implN := impl.map fun t => if isPanic t then "panic:any" else t
       let v := (Verdict.ok [tag]).withDiff (implN != want) s!"model {want}"
       if impl.any isPanic then v.withSpec true "sat-add-i32-overflow" s!"Affine::add panics instead of saturating: {impl}"
       else
